@@ -519,16 +519,18 @@ struct PolVInclude {
 struct ValueCategoryHarness {
 	Ctx & ctx;
 	ValueCategoryHarness(Ctx & c) : ctx(c) {}
+	void processIfShapes(Bfs & b, int shape, int cat, const char * catName);
 	void body(Bfs & b) {
 		ledger().reset();
 		b.stepEnd("start");
-		int cls = b.chooseOp(6);      // list, dispatcher (exclude form), dispatcher (include form + getEvent), queue (exclude), queue (include), queue's inherited dispatch (include)
+		int cls = b.chooseOp(9);      // 6-8: HeterEventQueue::processIf over a BY-VALUE prototype, predicate taking the argument by value / by const& / refusing first; 0-5: list, dispatcher (exclude form), dispatcher (include form + getEvent), queue (exclude), queue (include), queue's inherited dispatch (include)
 		int cat = ctx.ex.choose(3, 3, K_OP);     // lvalue, const lvalue, rvalue
 		std::vector<std::string> got;
 		auto byRef = [&got](VMsg & m) { got.push_back(fmt("ref:%d.%d.%zu", m.key, m.tag, m.text.size())); };
 		auto byVal = [&got](VMsg && m) { got.push_back(fmt("val:%d.%d.%zu", m.key, m.tag, m.text.size())); };   // not callable with an lvalue: binds to the second prototype
 		static const char * cn[] = {"HeterCallbackList invocation", "HeterEventDispatcher::dispatch(event, arg)", "HeterEventDispatcher::dispatch(arg) with the include-event policy", "HeterEventQueue enqueue(event, arg) + process", "HeterEventQueue enqueue(arg) + process with the include-event policy", "HeterEventQueue::dispatch(arg) with the include-event policy"};
 		static const char * an[] = {"a non-const lvalue", "a const lvalue", "an rvalue"};
+		if(cls >= 6) { processIfShapes(b, cls - 6, cat, an[cat]); return; }
 		std::string desc = fmt("%s with %s", cn[cls], an[cat]);
 		ctx.log(desc);
 		const std::string text(40, 'x');
@@ -554,6 +556,35 @@ struct ValueCategoryHarness {
 		b.stepEnd(fmt("done%d.%d", cls, cat));
 	}
 };
+
+// processIf hands the stored arguments to the predicate and THEN dispatches the same stored object: whatever the predicate's
+// parameter shape (by value, by const&), the listeners - by value and by const& - must still receive the intact event
+typedef eventpp::HeterTuple<void(VMsg), void(int)> HTV1;
+inline void ValueCategoryHarness::processIfShapes(Bfs & b, int shape, int cat, const char * catName) {
+	static const char * sn[] = {"processIf(predicate taking the argument by value, accepting)", "processIf(predicate taking it by const&, accepting)", "processIf(by-value predicate refusing); processIf(by-value predicate accepting)"};
+	std::string desc = fmt("HeterEventQueue<void(VMsg)> enqueue(%s) + %s", catName, sn[shape]);
+	ctx.log(desc);
+	const std::string text(40, 'x');
+	VMsg lv{7, 42, text}; const VMsg clv{7, 42, text};
+	std::vector<std::string> got;
+	eventpp::HeterEventQueue<int, HTV1> q;
+	q.appendListener(7, [&got](VMsg m) { got.push_back(fmt("L1:%d.%d.%zu", m.key, m.tag, m.text.size())); });
+	q.appendListener(7, [&got](const VMsg & m) { got.push_back(fmt("L2:%d.%d.%zu", m.key, m.tag, m.text.size())); });
+	if(cat == 0) q.enqueue(7, lv); else if(cat == 1) q.enqueue(7, clv); else q.enqueue(7, VMsg{7, 42, text});
+	q.enqueue(7, 5);
+	bool r = false;
+	if(shape == 0) r = q.processIf([&got](VMsg m) { got.push_back(fmt("P:%zu", m.text.size())); return true; });
+	else if(shape == 1) r = q.processIf([&got](const VMsg & m) { got.push_back(fmt("P:%zu", m.text.size())); return true; });
+	else { q.processIf([&got](VMsg m) { got.push_back(fmt("P:%zu", m.text.size())); return false; }); r = q.processIf([&got](VMsg m) { got.push_back(fmt("P:%zu", m.text.size())); return true; }); }
+	std::vector<std::string> want;
+	if(shape == 2) want.push_back("P:40");
+	want.push_back("P:40"); want.push_back("L1:7.42.40"); want.push_back("L2:7.42.40");
+	for(auto & g : got) ctx.obsStr(g);
+	if(got != want) { std::string g; for(auto & x : got) g += x + " "; std::string w; for(auto & x : want) w += x + " "; ctx.fail("argument-not-intact", fmt("%s observed [%s], expected [%s]", desc.c_str(), g.c_str(), w.c_str())); }
+	if(!r && !ctx.failed) ctx.fail("result-wrong", desc + ": processIf returned false although it dispatched an event");
+	if(lv.text.size() != 40) ctx.fail("caller-lvalue-modified", desc + ": the caller's lvalue was moved from");
+	b.stepEnd(fmt("done-pif%d.%d", shape, cat));
+}
 
 template <typename H>
 static void addUnit(const std::string & name, int minTier, Cfg cfg, int dq, int dt) {
